@@ -425,7 +425,9 @@ func DefaultModels() map[string]Model {
 		v := BVLit64(0, 128)
 		for k := int64(0); k < 16; k++ {
 			byteK := ZeroExt(Select(arr, BVBin("bvadd", p.off, BVLit64(k, 64))), 128)
-			v = Ite(BVCmp("bvult", BVLit64(k, 64), p.ln), BVBin("bvor", BVBin("bvshl", v, BVLit64(8, 128)), byteK), v)
+			// each step is named: the accumulator occurs twice per step, so an unnamed term doubles in
+			// printed size with every byte (2^16 copies for 16 bytes)
+			v = x.define(st, "beval", Ite(BVCmp("bvult", BVLit64(k, 64), p.ln), BVBin("bvor", BVBin("bvshl", v, BVLit64(8, 128)), byteK), v))
 		}
 		return v
 	}
